@@ -63,6 +63,16 @@ def specs(tier, seed):
     add("M1", [["e", "E_transrot"], ["d", "D_rot"]], "E|D", variant="mol")
     add("M", [["e", "E_transrot"]], "E", variant="mol", depth=dc)
     add("M", [["e", "E_transrot*2"]], "E*2", variant="mol", depth=dc)
+    # members' geometric checks answered by the explorer: one member may succeed while another fails
+    add("A2", [["e", "E_trans*2"]], "E*2", depth=dc, check=True)
+    add("A2", [["e", "E_trans+E_trans"]], "E+E", depth=dc, check=True)
+    # one trial deleting one particle and inserting another (plain composite of two one-way exchange moves)
+    add("A2", [["x", "G[E0_trans,E1_trans]", 1.0, "gc"]], "G[E0,E1]", depth=dc)
+    add("A3", [["x", "G[D_ball,E0_trans,E1_trans]", 1.0, "gc"], ["e", "E_trans"]], "G[D,E0,E1]|E", depth=dc, labels=[0, -1, 1])
+    add("M", [["x", "G[E0_transrot,E1_transrot]", 1.0, "gc"], ["d", "D_rot"]], "G[E0,E1]|D", depth=dc, variant="mol")
+    # the same move object stand-alone and inside a composite
+    add("A2", [["e", "E_trans"], ["x", "D_ball+=e"]], "E|D+E", variant="shared-with-composite")
+    add("A2", [["d", "D_ball"], ["e", "E_trans"], ["x", "=d+=e"]], "D|E|D+E", variant="shared-with-composite", depth=dc)
     add("A2", [["e", "E_trans"]], "E", variant="move-added-after-first-trial", late_add=1)
     add("A1", [["e", "E_trans"], ["d", "D_ball"]], "E|D", variant="move-added-after-second-trial", late_add=2)
     add("A0", [["e", "E_trans"]], "E", variant="empty-start")
@@ -119,13 +129,27 @@ def task(spec):
     st = Stats()
     only = spec.get("only")
     bspec = dict(spec)
-    bspec["table"] = [e for e in spec["table"] if not e[1].startswith("=")]
-    aliases = [(e[0], e[1][1:]) for e in spec["table"] if e[1].startswith("=")]
+    bspec["table"] = [e for e in spec["table"] if "=" not in e[1]]
+    aliases = [(e[0], e[1] if "+" in e[1] else e[1][1:]) for e in spec["table"] if "=" in e[1]]
 
     def run(ch: Chooser):
         def setup(sysm):
             mc, atoms = sysm.mc, sysm.atoms
-            for new, old in aliases:  # the same move object under a second name
+            for new, old in aliases:  # the same move object under a second name / inside a composite
+                if "+" in old:
+                    from qv.systems import make_move
+
+                    mv = None
+                    for part in old.split("+"):
+                        if part.startswith("="):
+                            m = mc.moves[part[1:]].move
+                        else:
+                            m, lv = make_move(part, sysm.spec.get("labels", [int(x) for x in next(iter(sysm.leaves)).labels]))
+                            sysm.leaves.extend(lv)
+                        mv = m if mv is None else mv + m
+                    mc.add_move(mv, criteria=ChoiceCriteria(ch), name=new)
+                    sysm.entries[new] = mv
+                    continue
                 stor = mc.moves[old]
                 mc.add_move(stor.move, criteria=stor.criteria, name=new)
                 sysm.entries[new] = stor.move
@@ -207,7 +231,11 @@ def _check_execution(spec, ch, init, tsize, trials, counters, sets):
         removed = set(u0.tolist()) - set(u1.tolist())
         added = [u for u in u1.tolist() if u not in set(u0.tolist())]
         if t.verdict is not True and (removed or added):
-            return None  # atoms changed by a non-accepted trial: C03's statement, not C05's
+            # atoms changed by a non-accepted trial: C03's statement; C05's part is the alignment
+            for lab in post["labels"]:
+                if len(lab) != post["n"]:
+                    return V("labels-length-after-abandoned-trial", f"a {'rejected' if t.verdict is False else 'failed'} trial left {post['n']} atoms but a move carries {len(lab)} labels")
+            return None
         # a do-not-touch (negative) label is honoured: such atoms are never displaced
         if not removed and not added and len(u0) == len(u1) and pre["labels"]:
             moved = np.flatnonzero(np.abs(post["pos"] - pre["pos"]).max(axis=1) > 0)
